@@ -3,6 +3,7 @@ import MpcVerif.Model.Garble
 import MpcVerif.Model.GarbleHist
 import MpcVerif.Proofs.PoolGarble   -- core-only; holds the definitions GMem / GJob / garbleParams (C17)
 import MpcVerif.Model.GarbleBig
+import MpcVerif.Model.GarbleTape
 
 namespace Drv.C01
 open Mpc Drv
@@ -141,16 +142,50 @@ def handleHist (nw nin nout gates evs : String) : String :=
 /-! ### Extreme circuits (`Model/GarbleBig.lean`)
 
 `c01x <full|local> <key/key..> <tape/tape..> <nw> <nin> <nout> <gates> <x,x,...> <samples/samples..>`:
-one circuit whose table labels / gates / wires sit on or beyond 2^16 / 2^20,
-garbled several times.  The result is canonical but not a dump.  `full`: `R`,
+one circuit whose input width / table labels / gates / wires sit on a boundary
+(multiples of 256, constants found in the code, 2^16, 2^20), garbled several
+times from the slots of its random stream (`Circuit.garbleSlotsTR`,
+Model/GarbleTape.lean: slot 0 is `R`, slot `i+1` belongs to input wire `i`;
+`C01_every_input_wire_assigned`).  A tape is its bytes in hex or, for wide
+inputs, `@<seed>`: the splitmix64 stream of the seed (`prgLabel`).  The result
+is canonical but not a dump.  `full`: `R`, the bytes consumed from the stream,
 the transmitted rows per gate kind and their total, running digests of all wire
 pairs (wire order), of all table rows (gate order, row count of every gate
 mixed in) and, per input, of all evaluated labels, plus the Compute bits -
 garbled and evaluated with Lean AES on the constant-stack loops (`garbleTR_eq`:
 equal to `Circuit.garble` for every circuit).  `local`: the row counts every
 garbling of the model has (`C01_rows_per_kind`, no hashing), the Compute bits,
-and the local step of the sampled gates on the real input pairs
-(`C01_garble_local`). -/
+the local step of the sampled gates on the real input pairs
+(`C01_garble_local`) and the pairs of the sampled input wires `w<i>`
+(`C01_every_input_wire_assigned`). -/
+
+/-- The random stream of one garbling as label slots. -/
+structure TapeSrc where
+  bytes : Nat
+  slot  : Nat → BitVec 128
+
+def smix (z : UInt64) : UInt64 :=
+  let z := (z ^^^ (z >>> 30)) * 0xBF58476D1CE4E5B9
+  let z := (z ^^^ (z >>> 27)) * 0x94D049BB133111EB
+  z ^^^ (z >>> 31)
+
+/-- Word `k` (0-based) of the splitmix64 stream of `seed`. -/
+def prgWord (seed : UInt64) (k : Nat) : UInt64 := smix (seed + 0x9E3779B97F4A7C15 * (UInt64.ofNat (k + 1)))
+
+/-- Slot `k` of the stream `@seed`: words `2k` (high) and `2k+1` (low), big endian. -/
+def prgLabel (seed : UInt64) (k : Nat) : BitVec 128 :=
+  BitVec.ofNat 128 ((prgWord seed (2 * k)).toNat * 2 ^ 64 + (prgWord seed (2 * k + 1)).toNat)
+
+def parseTape (s : String) (nIn : Nat) : Option TapeSrc :=
+  if s.startsWith "@" then
+    match Aes.bytesOfHex (s.drop 1).toString with
+    | some b =>
+      if b.size != 8 then none else
+      let seed := b.foldl (fun (a : UInt64) x => a * 256 + x.toUInt64) 0
+      some { bytes := 16 * (1 + nIn), slot := prgLabel seed }
+    | none => none
+  else
+    (Aes.bytesOfHex s).map fun b => { bytes := b.size, slot := fun k => label128 b (16 * k) }
 
 def kindStr (f : Op → Nat) : String :=
   s!"a{f .and}:o{f .or}:i{f .inv}:x{f .xor}:n{f .xnor}"
@@ -197,8 +232,14 @@ def parseCircuitFast (nw nin nout gates : String) : Option Circuit := do
 (the REAL pairs of the gate's input wires).  Prints the output pair and the
 rows the model's `garbleCore` gives with the tweak the model's counter has
 when the loop reaches that gate (`Circuit.localStep`, `C01_garble_local`). -/
-def localStepStr (H : Hash (BitVec 128)) (r : BitVec 128) (ga : Array Gate) (tw : Array Nat) (s : String) : String :=
+def localStepStr (H : Hash (BitVec 128)) (r : BitVec 128) (slot : Nat → BitVec 128) (nIn : Nat)
+    (ga : Array Gate) (tw : Array Nat) (s : String) : String :=
   match s.splitOn ":" with
+  | [w] =>
+    -- `w<i>`: the pair of input wire i (slot i+1 of the stream and R)
+    match (if w.startsWith "w" then (w.drop 1).toString.toNat? else none) with
+    | some i => if i < nIn then s!"w{i}:{hex128 (slot (i + 1))}{hex128 (slot (i + 1) ^^^ r)}" else "bad-sample"
+    | none => "bad-sample"
   | [gi, hex] =>
     match gi.toNat?, Aes.bytesOfHex hex with
     | some i, some b =>
@@ -213,23 +254,23 @@ def localStepStr (H : Hash (BitVec 128)) (r : BitVec 128) (ga : Array Gate) (tw 
 
 def extGarbling (mode : String) (c : Circuit) (ga : Array Gate) (tw : Array Nat) (xs : List (List Bool))
     (cs : String) (key tape samples : String) : String :=
-  match Aes.bytesOfHex key, Aes.bytesOfHex tape with
-  | some key, some tape =>
+  match Aes.bytesOfHex key, parseTape tape c.nIn with
+  | some key, some T =>
     match Aes.Cipher.new key with
     | none => "garble-error"
     | some ciph =>
-      if tape.size < 16 * (1 + c.nIn) then "garble-error" else
+      if T.bytes < 16 * c.slotsUsed then "garble-error" else
       let H := aesHash ciph
-      let r := setS (label128 tape 0)
+      let used := 16 * c.slotsUsed
       if mode == "local" then
         -- no garbling of the whole circuit: row counts every garbling of the model has, local steps
-        let ss := if samples == "-" then [] else (samples.splitOn ",").map (localStepStr H r ga tw)
-        s!"r={hex128 r};rows={kindStr fun k => rowsOfKindSpec k c.gates};total={slabSize c.gates};c={cs};s=" ++
+        let r := setS (T.slot 0)
+        let ss := if samples == "-" then [] else (samples.splitOn ",").map (localStepStr H r T.slot c.nIn ga tw)
+        s!"r={hex128 r};used={used};rows={kindStr fun k => rowsOfKindSpec k c.gates};total={slabSize c.gates};c={cs};s=" ++
           ",".intercalate ss
       else
-      let inl := fun i => label128 tape (16 * (i + 1))
-      let G := c.garbleTR H r inl
-      let head := s!"r={hex128 G.r};rows={kindStr fun k => rowsOfKind k c.gates G.rows};" ++
+      let G := c.garbleSlotsTR H setS T.slot
+      let head := s!"r={hex128 G.r};used={used};rows={kindStr fun k => rowsOfKind k c.gates G.rows};" ++
         s!"total={G.slab.length};wd={hex128 (digWires G.wires)};gd={hex128 (digRows G.rows)}"
       let evs := xs.map fun x =>
         match c.evalGarbled H G.rows (encodeInputsFast c G x) with
